@@ -22,7 +22,17 @@ package stackitem
 
 // Value of an interop item is what it wraps (the body of (*Interop).Value; other item kinds
 // are not constrained here).
+//@ spec valueOf(it Item) any
 //@ iface Item.Value
 //@ assumed
 //@ pure
 //@ ensures is(recv, *Interop) ==> result == recv.(*Interop).value
+//@ ensures result == valueOf(recv)   // what an item holds is a function of the item (its elements for a compound one)
+
+//@ iface Item.Type
+//@ assumed
+//@ pure
+
+//@ func ToString
+//@ assumed
+//@ pure
